@@ -15,6 +15,7 @@ import (
 	"go.minekube.com/gate/pkg/edition/java/proto/util"
 	"go.minekube.com/gate/pkg/edition/java/proto/version"
 	"go.minekube.com/gate/pkg/gate/proto"
+	"go.minekube.com/gate/pkg/internal/verifhook"
 )
 
 const (
@@ -167,6 +168,7 @@ func (e *Encoder) writeCompressed(payload *bytes.Buffer, pk any) (n int, err err
 	if err != nil {
 		return 0, err
 	}
+	verifhook.Point("enc.frame", "n", uncompressedSize)
 	n, err = util.WriteVarIntN(e.wr, compressed.Len()) // packet length
 	if err != nil {
 		return n, err
